@@ -340,6 +340,47 @@ func runC10(c *fw.Case) {
 		}
 	}
 
+	// frames without any column are frames too: no operation may panic on them
+	if c.No%10 == 0 {
+		for ei, ef := range []qframe.QFrame{{}, qframe.New(map[string]interface{}{}), qf.Select()} {
+			ops := []struct {
+				name string
+				f    func() qframe.QFrame
+			}{
+				{"Apply(const)", func() qframe.QFrame { return ef.Apply(qframe.Instruction{Fn: 1, DstCol: "x"}) }},
+				{"Apply(func())", func() qframe.QFrame { return ef.Apply(qframe.Instruction{Fn: func() int { return 1 }, DstCol: "x"}) }},
+				{"Apply(func(int) int) on missing column", func() qframe.QFrame {
+					return ef.Apply(qframe.Instruction{Fn: func(x int) int { return x }, DstCol: "x", SrcCol1: "y"})
+				}},
+				{"WithRowNums", func() qframe.QFrame { return ef.WithRowNums("rn") }},
+				{"Eval(Val(1))", func() qframe.QFrame { return ef.Eval("x", qframe.Val(1)) }},
+				{"Filter(Null())", func() qframe.QFrame { return ef.Filter(qframe.Null()) }},
+				{"Filter on missing column", func() qframe.QFrame { return ef.Filter(qframe.Filter{Column: "y", Comparator: "=", Arg: 1}) }},
+				{"Sort()", func() qframe.QFrame { return ef.Sort() }},
+				{"Slice(0,0)", func() qframe.QFrame { return ef.Slice(0, 0) }},
+				{"Select()", func() qframe.QFrame { return ef.Select() }},
+				{"Drop(x)", func() qframe.QFrame { return ef.Drop("x") }},
+				{"Copy(x,y)", func() qframe.QFrame { return ef.Copy("x", "y") }},
+				{"Distinct()", func() qframe.QFrame { return ef.Distinct() }},
+				{"GroupBy().Aggregate()", func() qframe.QFrame { return ef.GroupBy().Aggregate() }},
+				{"writers and String", func() qframe.QFrame {
+					_ = ef.ToCSV(&bytes.Buffer{})
+					_ = ef.ToJSON(&bytes.Buffer{})
+					_ = ef.String()
+					_ = ef.ByteSize()
+					_, _ = ef.Equals(ef)
+					return ef
+				}},
+			}
+			for _, o := range ops {
+				judge(fmt.Sprintf("%s on a frame without columns (variant %d)", o.name, ei), "EmptyFrame", false, o.f)
+				if c.Failed() {
+					return
+				}
+			}
+		}
+	}
+
 	// ------------------------------------------------------------ (b) constructed misuse
 	one := func(k model.Kind) string {
 		for _, col := range root.Shadow.Cols {
